@@ -10,7 +10,7 @@ func init() {
 		LevelText: "every canonical state of a real Store reachable by <=d operations (Set with mixed costs, SetWithTTL on all five wheel levels, read hits drained into the policy, Delete, forced hill-climber steps) from an empty cache of MaxSize 2/3/4/10/16/100 (200 in the thorough tier) is saved and re-loaded into a fresh cache of the same and of every smaller MaxSize, with the clock moved to 0 / 5 s before / 5 s after every deadline present; the right level because the property quantifies over cache contents, region splits, target sizes and elapsed times, which a search over the real implementation's reachable states enumerates without a hand-written model",
 		LevelNote: "bounded: depth <=3..6 operations (per scenario), 3-5 keys, 2-3 costs, one saved-cache age per scenario (0 or 3 days); value types int, string(key \"\" too), empty struct, []byte, and 1.5 MiB []byte values (multi-block stream, thorough); trusted: white-box drivers (drainRead on a hit, policy.Access(nil) with forced sample counters as the climb trigger, clock.Start shifting as the passage of time, stopped maintenance ticker); every shard runs the whole search (exact deduplication) and evaluates the oracle on the states it owns by canonical hash, so state and transition totals are exact",
 		Rule:      "BFS: successor = fresh real Store + replay of the operation list + one more operation, deduplicated on a canonical key (regions in recency order with key/value/cost/TTL class, window/protected capacity, sketch table, climber step/hit-rate); an execution = one save -> elapsed -> load round trip; an outcome = (target class, saved and loaded region sizes, #expired dropped, #lost, #soon-due TTL entries, overshoot)",
-		Assume:    []string{"time is modelled by moving clock.Start of the saved store back before Persist (Recover adopts it), never by sleeping; a deadline that falls between the two clock readings bracketing Recover is accepted either way", "single-threaded quiescent save and load (concurrency of Persist is C09/C01 territory)", "admission randomness (hash-DoS jitter at sketch frequency >= 6) is not reached within the depth bound"},
+		Assume:    []string{"time is modelled by moving clock.Start of the saved store back before Persist (Recover adopts it), never by sleeping; a deadline that falls between the two clock readings bracketing Recover is accepted either way", "single-threaded save and load (concurrency of Persist is C19/C01 territory); saves are quiescent except in scenario nonquiescent-save, where the map phase of a cost-changing Set has happened and its event has not (there the clauses about drained totals are not applied)", "admission randomness (hash-DoS jitter at sketch frequency >= 6) is not reached within the depth bound"},
 		Quick: []Scenario{
 			sc("regions-2", "size=2,keys=3,costs=1/2,depth=4", 1, 60),
 			sc("regions-3", "size=3,keys=4,costs=1/2,depth=5", 3, 60),
@@ -22,6 +22,7 @@ func init() {
 			sc("ttl-4-aged", "size=4,keys=3,costs=1,ttls=0/1/2/3/4/5,depth=3,targets=4/3/1,age=259200", 4, 60),
 			sc("shrunk-hot", "size=1000,keys=2,costs=1,alpha=get,prefix=200,shrink=100,heat=15,depth=1,targets=1000/500", 1, 60),
 			sc("grown-cold-protected", "size=1000,keys=2,costs=1,alpha=get,prefix=40,hot=10,grow=100,depth=1,targets=1000/500", 1, 60),
+			sc("nonquiescent-save", "size=4,keys=3,costs=1/2,alpha=set/get/setmap,depth=4,targets=4/3", 2, 60),
 			sc("types-string", "vt=string,size=4,keys=2,costs=1/2,ttls=0/2,depth=3", 1, 60),
 			sc("types-struct", "vt=struct,size=4,keys=2,costs=1/2,ttls=0/2,depth=3", 1, 60),
 			sc("types-bytes", "vt=bytes,size=4,keys=2,costs=1/2,ttls=0/2,depth=3", 1, 60),
@@ -41,6 +42,7 @@ func init() {
 			sc("shrunk-hot", "size=1000,keys=3,costs=1,alpha=get/set/del,prefix=200,shrink=100,heat=15,depth=2,targets=1000/500/100", 2, 600),
 			sc("shrunk-hot-300", "size=1000,keys=2,costs=1,alpha=get,prefix=300,shrink=30,heat=15,depth=1,targets=1000", 1, 600),
 			sc("grown-cold-protected", "size=1000,keys=3,costs=1,alpha=get/set/del,prefix=40,hot=10,grow=100,depth=2,targets=1000/500/100", 2, 600),
+			sc("nonquiescent-save", "size=4,keys=4,costs=1/2/3,alpha=set/get/del/setmap,depth=6,targets=4/3/2", 8, 600),
 			sc("types-string", "vt=string,size=4,keys=3,costs=1/2,ttls=0/2,depth=4", 2, 600),
 			sc("types-struct", "vt=struct,size=4,keys=3,costs=1/2,ttls=0/2,depth=4", 2, 600),
 			sc("types-bytes", "vt=bytes,size=4,keys=3,costs=1/2,ttls=0/2,depth=4", 2, 600),
